@@ -339,7 +339,7 @@ def compare_contacts(c, pre, mjm, d, w, mjd, tag, degenerate_normals):
     only_a = sorted(set(A) - set(B))[:3]
     only_b = sorted(set(B) - set(A))[:3]
     c.fail(f"contact_set:{tag}", f"{pre}contact id sets differ (geom0,geom1,flex0,flex1,elem0,elem1,vert0,vert1): only MJWarp {only_a}, only MuJoCo {only_b}")
-    return
+    return set(A), set(B)
   for key in sorted(A):
     FA, FB = np.array(A[key]), np.array(B[key])
     perm = _match(FA, FB)
@@ -353,6 +353,7 @@ def compare_contacts(c, pre, mjm, d, w, mjd, tag, degenerate_normals):
       c.close(pre + f"contact{key}.normal", FA[ok_n, 4:7], FB[ok_n, 4:7], "f32dyn", vkey=f"contact_normal:{tag}")
     else:
       degenerate_normals.append(key)
+  return set(A), set(B)
 
 
 def _dense(rownnz, rowadr, colind, vals, shape):
@@ -707,18 +708,22 @@ def execute(scn):
       c.close(pre + f, getattr(d, f).numpy()[w], getattr(mjd, f), "f32dyn", vkey=f"{f}:{tag}")
     convex = scn["collision"] == "sphere"
     degen = []
+    wtag = tag
     if not convex:
       pre_cmp = util.Cmp()
-      compare_contacts(pre_cmp, pre, mjm, d, w, mjd, tag, degen)
+      ka, kb = compare_contacts(pre_cmp, pre, mjm, d, w, mjd, tag, degen)
       degen_found = bool(degen)
       degen = []
+      if SHAPES[scn["shape"]][1] == 3 and ka < kb and all(k[0] < 0 and k[1] < 0 and k[4] >= 0 and k[5] >= 0 for k in kb - ka):
+        # solid flex self-collision: every MJWarp contact is one of MuJoCo's, MuJoCo has further tetrahedron-tetrahedron pairs
+        wtag = tag + ":tet_tet_pairs_missing"
     else:
       degen_found = False
-    compare_rows(c, pre, mjm, m, d, w, mjd, tag, with_contacts=not convex and not degen_found)
+    compare_rows(c, pre, mjm, m, d, w, mjd, wtag, with_contacts=not convex and not degen_found)
     if convex:
       compare_geom_flex_invariants(c, pre, mjm, d, w, mjd, tag)
     else:
-      compare_contacts(c, pre, mjm, d, w, mjd, tag, degen)
+      compare_contacts(c, pre, mjm, d, w, mjd, wtag, degen)
     if not c.violations and not convex and not degen:
       c.close(pre + "qacc", d.qacc.numpy()[w], mjd.qacc, "solver", vkey=f"qacc:{tag}")
     active["moved"] |= not np.allclose(mjd.flexvert_xpos, q0.flexvert_xpos)
